@@ -5,15 +5,8 @@
 //! /repo and writes a JSON result (events observed, distinct cases, samples,
 //! violations with replay artefacts). `check.py` turns that into the verdict.
 
-mod bigfield;
-mod common;
-mod exec;
-mod gen;
-mod hostile;
-mod layout;
-mod prop;
-
-use common::*;
+use mon::common::*;
+use mon::prop;
 use std::collections::BTreeMap;
 use std::time::Instant;
 
@@ -66,7 +59,18 @@ fn main() {
   }
   install_panic_hook();
   let t0 = Instant::now();
-  let rec = prop::dispatch(&ctx);
+  let rec = match guarded(|| prop::dispatch(&ctx)) {
+    Ok(r) => r,
+    Err(c) => {
+      let mut r = Rec::new();
+      r.violation(
+        &format!("panic:{}", strip_line(&c.loc)),
+        format!("the monitor's main thread panicked at {}: {}", c.loc, c.msg),
+        serde_json::json!({"location": c.loc, "message": c.msg}),
+      );
+      r
+    }
+  };
   let wall = t0.elapsed().as_secs_f64();
   let mut j = rec.to_json();
   j["property"] = ctx.prop.clone().into();
